@@ -52,7 +52,15 @@ def run(ctx):
     M = 30000 if ctx.tier == 'quick' else 400000
     Ns = list(range(0, M + 1))
     S62 = [s for s in S if s < 2 ** 62]
-    pick = (rng.sample(S62, 6000) if ctx.tier == 'thorough' else rng.sample(S62, 380)) + S62[-20:]
+    # structured part, always: every 7-smooth number with at most two distinct prime factors (prime powers, 2^a 3^b, ...)
+    def nprimes(s):
+        return sum(1 for q in (2, 3, 5, 7) if s % q == 0)
+    structured = [s for s in S62 if nprimes(s) <= 2] if ctx.tier == 'thorough' else [s for s in S62 if nprimes(s) <= 1 or (nprimes(s) == 2 and s % 6 == 0 and s % 5 and s % 7)]
+    escalate = bool(ctx.broken)        # a translator / proof obligation broke: search with the thorough-size sample
+    pick = (rng.sample(S62, 6000) if ctx.tier == 'thorough' else rng.sample(S62, 380)) + S62[-20:] + structured
+    if escalate:
+        pick = list(S62)
+        ctx.notes.append('obligation broken: searching around every 7-smooth number below 2^62')
     for s in pick:
         i = bisect.bisect_left(S, s)
         Ns += [s - 1, s, s + 1]
@@ -88,9 +96,10 @@ def run(ctx):
               'From PB Require Import Model.FastLen.\n'
               'Definition chk (n a b : Z) : Z := (if get (next_fast_len n) =? a then 0 else 1) + (if get (prev_fast_len n) =? b then 0 else 2).\n')
     # exhaustive part summarised by run lengths, the rest one term per case
-    big = [(n, a, b) for n, (a, b) in zip(Ns, impl) if n > M]
+    # (when an obligation is already broken the generated model is unavailable / not trusted: the escalated search is monitor-only)
+    big = [] if escalate else [(n, a, b) for n, (a, b) in zip(Ns, impl) if n > M]
     items = [f'chk {zlit(n)} {zlit(a)} {zlit(b)}' for n, a, b in big]
-    res = ctx.run_cases(header, items, shard=max(50, len(items) // 48 + 1), tag='pts')
+    res = ctx.run_cases(header, items, shard=max(50, len(items) // 48 + 1), tag='pts') if items else None
     if res is not None:
         for (n, a, b), r in zip(big, res):
             if r:
@@ -110,7 +119,7 @@ def run(ctx):
         n = min(step, M + 1 - lo)
         items2.append(f'flat (rle next_fast_len {lo} (Z.to_nat {n}))')
         items2.append(f'flat (rle prev_fast_len {lo} (Z.to_nat {n}))')
-    res2 = ctx.run_cases(header, items2, result_ty='list', shard=2, tag='rle')
+    res2 = None if escalate else ctx.run_cases(header, items2, result_ty='list', shard=2, tag='rle')
     if res2 is not None:
         k = 0
         for lo in range(0, M + 1, step):
